@@ -105,6 +105,14 @@ spec fn valid_read(mv: Map<LocationAndType, BTreeMap<MemoryEntry>>, b: Beneficia
     }
 }
 
+// ---- type invariant of a speculative result w.r.t. the block beneficiary (asserted by the code itself at commit) ----
+spec fn sr_ok(sr: SpeculativeResult, b: Address) -> bool {
+    sr.deferred_reward is Some ==> !sr.result_and_state.state@.dom().contains(b)
+}
+spec fn result_ok<E>(v: Option<TransactionResult<E>>, b: Address) -> bool {
+    v matches Some(tr) ==> (tr.execute_result matches Ok(sr) ==> sr_ok(sr, b))
+}
+
 // ---- Scheduler well-formedness (what Scheduler::build establishes) ----
 impl<DB: DatabaseRef> Scheduler<DB> {
     spec fn wf(&self) -> bool {
@@ -115,6 +123,7 @@ impl<DB: DatabaseRef> Scheduler<DB> {
         &&& self.txs.len() == self.block_size
         &&& self.block_size < usize::MAX
         &&& self.tx_dependency.num() == self.block_size
+        &&& forall|i: int, v: Option<TransactionResult<DB::Error>>| 0 <= i < self.block_size && #[trigger] self.tx_results@[i].inv(v) <==> 0 <= i < self.block_size && result_ok(v, self.env.beneficiary)
         // assumed: incarnation counters never reach usize::MAX (one increment per execution attempt)
         &&& forall|i: int, st: TxState| 0 <= i < self.block_size && #[trigger] self.tx_states@[i].inv(st) ==> st.incarnation < usize::MAX
         &&& self.abort.may_reset() == false
